@@ -23,9 +23,11 @@ header is the object it is inside the whole program; numbers compared by value),
 with its memo table disabled returns the same circuit), `C14_refs_valid` (independent re-check of every accepted program:
 literal indices and slices in range, sources are registers, arity and kinds fit, definitions known, names distinct, one
 register) — these three on generated program TEXTS; the `_handmade_sx` variants run the same checks on hand-made
-S-expressions, where one input is known to fail both (a `usepulses` child after a gate statement, which the parser cannot
-produce; see Props/C07.lean `C07_memo_stale_after_usepulses`).  Since the memo key types its numbers (`g 1` / `g 1.0`)
-the exact form of C07 holds too; a deviation in an int/float literal only would be counted in `distribution`.
+S-expressions that the model handles.  Known residual failure of `C14_refs_valid_handmade_sx` (one fixed input): a
+`usepulses` child AFTER a gate statement replaces, in `native_gates`, the definition the earlier statement stays bound
+to (`usepulses a; register r[2]; X r[0]; usepulses b`; Props/C14.lean `C14_stale_definition_handmade`); the parser cannot
+produce such input.  Since the memo table is reset on every pulse load and types its numbers, both C07 oracles hold on
+hand-made input too (a deviation in an int/float literal only would be counted in `distribution`).
 
 The model answers `Unmodelled:<why>` on inputs that would make the Python build an object the IR cannot hold; on those
 the script checks that the Python raised or produced something `dump.circuit` cannot dump, and tabulates what it did.
